@@ -194,7 +194,39 @@ Sem(e, V, B) ==
     [] e.op = "box_leak" -> IF hasb THEN [Res(V, SetB(NoVec)) EXCEPT !.ret = sb, !.leaks = IdsOf(sb)] ELSE Res(V, B)
     [] e.op = "box_raw_roundtrip" -> IF hasb THEN [Res(V, B) EXCEPT !.ret = sb] ELSE Res(V, B)
     [] e.op = "box_from_iter" -> [Res(V, SetB(NewSeq(e.vals))) EXCEPT !.drops = IdsOf(sb), !.ret = NewSeq(e.vals)]
+    [] e.op = "box_downcast" -> IF hasb THEN [Res(V, B) EXCEPT !.ret = sb] ELSE Res(V, B)
+    [] e.op = "box_array" -> [Res(V, SetB(NewSeq(e.vals))) EXCEPT !.drops = IdsOf(sb), !.ret = NewSeq(e.vals)]
     [] e.op = "box_read" -> IF hasb THEN [Res(V, B) EXCEPT !.ret = sb] ELSE Res(V, B)
     [] OTHER -> Res(V, B)
 
+(***************************************************************************)
+(* Zero-sized elements cannot be told apart: the same semantics, counted.  *)
+(* ZSem(e, len) = [panics, len (afterwards), ret (elements handed to the   *)
+(* caller), gone (the vector itself is consumed)]                          *)
+(***************************************************************************)
+ZR(len) == [panics |-> FALSE, len |-> len, ret |-> 0, gone |-> FALSE]
+ZP(len) == [ZR(len) EXCEPT !.panics = TRUE]
+MinN(a, b) == IF a <= b THEN a ELSE b
+ZSem(e, len) ==
+  CASE e.op = "znew" -> ZR(0)
+    [] len < 0 -> ZR(len)                                   \* no vector: the driver does nothing
+    [] e.op = "zpush" -> ZR(len + 1)
+    [] e.op = "zpop" -> IF len = 0 THEN ZR(0) ELSE [ZR(len - 1) EXCEPT !.ret = 1]
+    [] e.op = "zinsert" -> IF U(e.a) > len THEN ZP(len) ELSE ZR(len + 1)
+    [] e.op \in {"zremove", "zswap_remove"} -> IF U(e.a) >= len THEN ZP(len) ELSE [ZR(len - 1) EXCEPT !.ret = 1]
+    [] e.op = "ztruncate" -> ZR(MinN(len, U(e.a)))
+    [] e.op = "zresize" -> ZR(e.a)
+    [] e.op = "zextend" -> ZR(len + e.a)
+    [] e.op = "zclear" -> ZR(0)
+    [] e.op = "zdrain" ->
+         IF RangePanics(e.rg, len) THEN ZP(len)
+         ELSE LET n == REnd(e.rg, len) - RStart(e.rg) IN [ZR(len - n) EXCEPT !.ret = MinN(e.a, n)]
+    [] e.op = "zsplit_off" -> IF U(e.a) > len THEN ZP(len) ELSE ZR(e.a)
+    [] e.op = "zretain" -> ZR(IF e.flag = 1 THEN len ELSE 0)
+    [] e.op = "zdedup" -> ZR(MinN(len, 1))
+    [] e.op = "zinto_iter" -> [ZR(0) EXCEPT !.ret = MinN(len, e.a) + MinN(len - MinN(len, e.a), e.b), !.gone = TRUE]
+    [] e.op = "zclone" -> ZR(len)
+    [] e.op = "zreserve" -> IF e.a < 0 /\ len > 0 THEN ZP(len) ELSE ZR(len)     \* len + usize::MAX overflows
+    [] e.op = "zdrop" -> [ZR(0) EXCEPT !.gone = TRUE]
+    [] OTHER -> ZR(len)
 =============================================================================
